@@ -322,6 +322,13 @@ class Interpreter(BaseInterpreter[TContext, TEvent]):
                 )
             self._event_loop_task = None
 
+        # 🧹 Sweep once more. While `cancel_all()` above was awaiting, the run
+        #    loop could still pick up an already-queued event and enter states
+        #    that arm fresh timers or start fresh services - tasks registered
+        #    AFTER the first sweep collected its list, which then outlived
+        #    `stop()`. With the loop gone nothing can add tasks any more.
+        await self.task_manager.cancel_all()
+
         logger.info("✅ Interpreter '%s' stopped successfully.", self.id)
 
     @overload
